@@ -101,6 +101,109 @@ async fn run_hb(log: &Log, cfg: &HbCfg, descr: Value) {
     quiesce().await;
 }
 
+// ---------------------------------------------------------------------------------------------
+// the same monitor as configured by Client (interval = pool check interval, timeout = pool idle
+// timeout), in real time: real server behind a relay that can be frozen; requests and answers are
+// observed through the cfg-guarded rx / tx hooks of the client session
+#[derive(Default)]
+struct HbTap { ev: std::sync::Mutex<Vec<(u64, &'static str, u64)>>, t0: std::sync::OnceLock<std::time::Instant> }
+impl anytls_rs::verif::Controller for HbTap {
+    fn point(&self, _t: Option<String>, _n: &'static str) -> anytls_rs::verif::BoxFut { Box::pin(async {}) }
+    fn event(&self, _t: Option<String>, kind: &'static str, fields: Vec<(&'static str, String)>) {
+        if kind != "rx" && kind != "tx" { return; }
+        let g = |k: &str| fields.iter().find(|f| f.0 == k).and_then(|f| f.1.parse::<u64>().ok()).unwrap_or(0);
+        if g("client") != 1 { return; }
+        let t = self.t0.get().map(|t| t.elapsed().as_millis() as u64).unwrap_or(0);
+        if kind == "tx" && g("cmd") == 8 { self.ev.lock().unwrap().push((g("sess"), "hbreq", t)); }
+        if kind == "rx" && g("cmd") == 9 { self.ev.lock().unwrap().push((g("sess"), "hbresp", t)); }
+    }
+    fn draw(&self, _lo: i64, _hi: i64) -> Option<i64> { None }
+}
+
+async fn pump(mut r: tokio::net::tcp::OwnedReadHalf, mut w: tokio::net::tcp::OwnedWriteHalf, frozen: Arc<std::sync::atomic::AtomicBool>) {
+    use tokio::io::{AsyncReadExt, AsyncWriteExt};
+    let mut buf = vec![0u8; 16384];
+    loop {
+        let n = match r.read(&mut buf).await { Ok(n) if n > 0 => n, _ => break };
+        while frozen.load(Ordering::SeqCst) { tokio::time::sleep(Duration::from_millis(10)).await; }
+        if w.write_all(&buf[..n]).await.is_err() { break; }
+    }
+}
+
+async fn client_level(log: &'static Log, tap: Arc<HbTap>, server: String, i_ms: u64, t_ms: u64, freeze: bool, offset_ms: u64) {
+    use crate::net::{self, TargetMode};
+    let frozen = Arc::new(std::sync::atomic::AtomicBool::new(false));
+    let l = tokio::net::TcpListener::bind("127.0.0.1:0").await.unwrap();
+    let raddr = l.local_addr().unwrap().to_string();
+    let f2 = frozen.clone();
+    tokio::spawn(async move { loop {
+        let Ok((c, _)) = l.accept().await else { break };
+        let Ok(u) = tokio::net::TcpStream::connect(&server).await else { continue };
+        let _ = c.set_nodelay(true); let _ = u.set_nodelay(true);
+        let (cr, cw) = c.into_split(); let (ur, uw) = u.into_split();
+        tokio::spawn(pump(cr, uw, f2.clone())); tokio::spawn(pump(ur, cw, f2.clone()));
+    } });
+    let pool = anytls_rs::client::SessionPoolConfig { check_interval: Duration::from_millis(i_ms), idle_timeout: Duration::from_millis(t_ms), min_idle_sessions: 1 };
+    let client = net::make_client(&raddr, net::PASSWORD, PaddingFactory::default(), pool);
+    let target = net::start_target("127.0.0.1:0", TargetMode::Echo).await;
+    let Ok(Ok((stream, sess))) = tokio::time::timeout(Duration::from_secs(5), client.create_proxy_stream((target.addr.ip().to_string(), target.addr.port()))).await else { return };
+    client.stop_session_pool_cleanup().await; // the pool's reaper is not the subject here
+    let sid = sess.id();
+    let now = || tap.t0.get().unwrap().elapsed().as_millis() as u64;
+    let mine = |kind: &str| -> Vec<u64> { tap.ev.lock().unwrap().iter().filter(|e| e.0 == sid && e.1 == kind).map(|e| e.2).collect() };
+    // a blocked reader is a waiter that the closure must release
+    let waiters = Arc::new(AtomicU64::new(1));
+    let w = waiters.clone();
+    tokio::spawn(async move { let mut buf = [0u8; 64]; loop { let r = { let mut g = stream.reader().lock().await; g.read(&mut buf).await }; match r { Ok(0) | Err(_) => break, Ok(_) => {} } } w.fetch_sub(1, Ordering::SeqCst); });
+    // wait for the first answered exchange, then a chosen offset into the interval
+    net::wait_until(|| !mine("hbresp").is_empty(), 2 * i_ms + 1500).await;
+    tokio::time::sleep(Duration::from_millis(offset_ms)).await;
+    let mut silent_t: i64 = -1;
+    if freeze { frozen.store(true, Ordering::SeqCst); tokio::time::sleep(Duration::from_millis(60)).await; silent_t = mine("hbresp").last().copied().unwrap_or(0) as i64; }
+    let frozen_at = now();
+    let horizon = frozen_at + 2 * i_ms + 2 * t_ms + 1200;
+    let mut closed_t: i64 = -1;
+    while now() < horizon { if sess.is_closed() { closed_t = now() as i64; break; } tokio::time::sleep(Duration::from_millis(20)).await; }
+    if closed_t >= 0 { tokio::time::sleep(Duration::from_millis(300)).await; }
+    // one block: the recorded exchanges in time order, the silence, the closure, the end of the observation
+    let mut evs: Vec<(u64, Value)> = Vec::new();
+    for t in mine("hbreq") { evs.push((t, json!({"ev": "hbreq", "t": t}))); }
+    for t in mine("hbresp") { evs.push((t, json!({"ev": "hbresp", "t": t}))); }
+    evs.sort_by_key(|e| e.0);
+    let mut out: Vec<Value> = evs.into_iter().filter(|e| closed_t < 0 || e.0 <= closed_t as u64).map(|e| e.1).collect();
+    if silent_t >= 0 { out.push(json!({"ev": "silent", "t": silent_t})); }
+    if closed_t >= 0 { out.push(json!({"ev": "closed", "t": closed_t})); }
+    out.push(json!({"ev": "end", "t": now(), "waiters": if closed_t >= 0 { waiters.load(Ordering::SeqCst) } else { 0 }}));
+    log.block_with_consts(json!({"kind": "client-level", "I": i_ms, "T": t_ms, "freeze": freeze, "offset": offset_ms}), json!({"I": i_ms, "T": t_ms, "tol": 350}), out);
+    frozen.store(false, Ordering::SeqCst);
+    let _ = tokio::time::timeout(Duration::from_secs(2), sess.close()).await;
+}
+
+fn run_client_level(args: &Args, thorough: bool) {
+    use crate::net;
+    let tap = Arc::new(HbTap::default());
+    let _ = tap.t0.set(std::time::Instant::now());
+    anytls_rs::verif::install(Some(tap.clone()));
+    let rt = net::rt();
+    let logp: &'static Log = crate::events::log();
+    let mut r = crate::pgen::Rng::new(args.seed ^ 0x4b);
+    rt.block_on(async {
+        let server = net::start_server(PaddingFactory::default()).await;
+        let mut hs = Vec::new();
+        for rep in 0..(if thorough { 4 } else { 1 }) {
+            for (i_ms, t_ms) in [(1200u64, 300u64), (900, 450), (700, 700), (600, 1100)] {
+                for freeze in [true, false] {
+                    let off = if rep == 0 { r.range(50, i_ms - 50) } else { r.range(0, i_ms) };
+                    hs.push(tokio::spawn(client_level(logp, tap.clone(), server.clone(), i_ms, t_ms, freeze, off)));
+                }
+            }
+            for h in hs.drain(..) { let _ = h.await; }
+        }
+    });
+    rt.shutdown_timeout(Duration::from_millis(200));
+    anytls_rs::verif::install(None);
+}
+
 pub fn run(args: &Args, log: &Log) -> Result<(), String> {
     let thorough = args.tier == "thorough";
     let rt = rig::paused_rt();
@@ -125,5 +228,7 @@ pub fn run(args: &Args, log: &Log) -> Result<(), String> {
             }
         }
     });
+    drop(local); drop(rt);
+    run_client_level(args, thorough);
     Ok(())
 }
